@@ -20,10 +20,47 @@ func isRuneSlice(t types.Type) bool {
 }
 
 // optionValue: v is the comma-ok assertion result of opts[<name>], or a constant default.
+// optionGiven: the path has decided whether opts[name] holds a value of the expected type (the ok of the
+// comma-ok assertion); returns that decision.
+func optionGiven(p *pwPath, opts ssa.Value, name string) (given, decided bool) {
+	for _, d := range p.decisions {
+		ex, ok := d.cond.(*ssa.Extract)
+		if !ok || ex.Index != 1 {
+			continue
+		}
+		ta, ok := ex.Tuple.(*ssa.TypeAssert)
+		if !ok || !ta.CommaOk {
+			continue
+		}
+		lk, ok := p.resolve(ta.X).(*ssa.Lookup)
+		if !ok {
+			continue
+		}
+		m := p.resolve(lk.X)
+		for i := 0; i < 3; i++ {
+			if ct, isCT := m.(*ssa.ChangeType); isCT {
+				m = p.resolve(ct.X)
+				continue
+			}
+			break
+		}
+		if m != opts {
+			continue
+		}
+		if c, ok := p.constOf(lk.Index); ok && c.Kind() == constant.String && constant.StringVal(c) == name {
+			return d.truth, true
+		}
+	}
+	return false, false
+}
+
 func optionValue(p *pwPath, v ssa.Value, opts ssa.Value, name string) bool {
 	v = p.resolve(v)
 	if _, ok := v.(*ssa.Const); ok {
-		return true
+		// the default stands in only where the option is missing or of another type: a default that also replaces
+		// a given value (a zero, a negative size) changes what the caller asked for
+		given, decided := optionGiven(p, opts, name)
+		return decided && !given
 	}
 	ex, ok := v.(*ssa.Extract)
 	if !ok || ex.Index != 0 {
@@ -36,7 +73,8 @@ func optionValue(p *pwPath, v ssa.Value, opts ssa.Value, name string) bool {
 	// a default kept in a constant table: table[<name>].(T) with the entry a constant of type T
 	if mi, isMI := p.resolve(ta.X).(*ssa.MakeInterface); isMI {
 		if _, isC := p.resolve(mi.X).(*ssa.Const); isC && types.Identical(mi.X.Type(), ta.AssertedType) {
-			return true
+			given, decided := optionGiven(p, opts, name)
+			return decided && !given
 		}
 		return false
 	}
